@@ -68,6 +68,7 @@ type Log struct {
 	exited     bool
 	exitErr    string
 	nCallbacks int
+	nConn      int // connected callbacks so far (pacing of the L2 scripts)
 }
 
 func newLog() *Log {
@@ -97,6 +98,7 @@ func (l *Log) add(e Ev) int {
 	case EvConn:
 		l.lastConn, l.curHash, l.curHeight, l.haveCur = e.Hash, e.Hash, e.Height, true
 		l.nCallbacks++
+		l.nConn++
 	case EvDisc:
 		l.curHash, l.curHeight, l.haveCur = e.Prev, e.Height-1, true
 		l.nCallbacks++
@@ -152,3 +154,9 @@ func (l *Log) tracker() (cur chainhash.Hash, height int32, have bool, lastConn c
 	defer l.mu.Unlock()
 	return l.curHash, l.curHeight, l.haveCur, l.lastConn, l.exited
 }
+
+// connCount returns the number of connected callbacks logged so far.
+func (l *Log) connCount() int { l.mu.Lock(); defer l.mu.Unlock(); return l.nConn }
+
+// length returns the number of entries.
+func (l *Log) length() int { l.mu.Lock(); defer l.mu.Unlock(); return len(l.evs) }
